@@ -386,6 +386,12 @@ func (fe *FE) applyContract(st *State, ins ssa.Instruction, ci *callInfo, res ss
 		}
 	}
 	hooks := fe.matchHooks(ci, mode)
+	if ci.con == nil && ci.fn != nil && ci.fn.Pkg != nil && benignPackage(ci.fn.Pkg.Pkg.Path()) && mode == "call" {
+		// formatting / logging / time / string helpers of the standard library (and the logging dependency): no effect on
+		// the modelled state, result unconstrained, no panic. Listed in the evidence as an assumed default contract.
+		ci.con = &FuncContract{Name: name, Extern: true, ModSet: true}
+		fe.usedExt["default extern "+name+" (assumed: no effect on gengine's state, unconstrained result; package whitelisted in govc/call.go benignPackage)"] = true
+	}
 	if ci.con == nil {
 		fe.errorf("call to %s at %s: callee has no contract", name, site)
 		fe.addStaticFailure("no-contract", sanitize(name), "callee "+name+" has no contract")
@@ -1767,4 +1773,14 @@ func (fe *FE) execAntlrWalk(st *State, ins ssa.Instruction, ci *callInfo, site s
 	// grammar fact (primary: ruleEntity+): a text without any token is a syntax error
 	st.assume(fmt.Sprintf("(=> (blank %s) (SynErrs %s))", text, text))
 	return true
+}
+
+// benignPackage: packages whose functions cannot reach gengine's state (they take no pointers into it) and are treated
+// as total functions with unconstrained results when no explicit extern contract exists.
+func benignPackage(path string) bool {
+	switch path {
+	case "fmt", "log", "time", "strings", "strconv", "math", "errors", "unicode", "unicode/utf8", "github.com/google/martian/log":
+		return true
+	}
+	return false
 }
